@@ -321,10 +321,12 @@ def classify_loop(prog, iv, cons, f, R, h, body, kind="reader"):
         t = f.blocks[b]["term"]
         if t["k"] != "switch":
             continue
-        dl = op_place(t["discr"])
-        d = strip(R.place(dl)) if dl else None
-        if d and d[0] == "binop" and d[1] in ("Ne", "Eq") and 0 in (const_val(d[2]), const_val(d[3])):
-            other = strip(d[2] if const_val(d[3]) == 0 else d[3])
+        te = int_test_edges(f, R, b)
+        if te is not None and 0 in te[1] and te[1][0] not in body:
+            # the loop is left exactly when the count is 0 (`!= 0` test or `match n { 0 => break, .. }`)
+            other = strip(te[0])
+            while other[0] == "cast":
+                other = strip(other[2])
             if other[0] == "call" and other[1].endswith("PagedReader<T> as std::io::Read>::read"):
                 callb = other[3]
                 buf = R.operand(f.blocks[callb]["term"]["args"][1])
